@@ -1,9 +1,14 @@
 import PsyVerif.Model.Proto
 import PsyVerif.Model.Copy
+import PsyVerif.Model.CopyCase
 open Proto C15
 
 /-! Driver of the C15 model.  One line =
-`(mode (nsym nnode nif) (sym ...) (access ...) (tree ...) r (edit ...))` with
+`(mode (nsym nnode nif) (sym ...) (access ...) (tree ...) r (edit ...) (lower ...))` with
+`lower` = for every name id the id of its lower-cased spelling (`SymbolTable._normalize`; optional,
+identity when absent); in the mode `deployed` the copy is computed BY NAME (`C15.copyL`: dict reads
+with normalised names, as the code does), in the other modes positionally (`C15.copy`); a fifth
+answer item says whether all tables of the copied subtree have distinct keys (`tablesKeyedB`);
 `sym = (name (link ...) (tree ...) (tree ...) iface fresh)` (direct links, expression forest of the
 datatype, expression forest of the initial value), `tree = (id kind sym tsym table (child ...))`,
 `sym`/`tsym` = `-1` for None, `table` = `-` or a list of symbol ids; `mode` = `deployed`, `pinned`
@@ -112,17 +117,25 @@ def showF (f : Forest) : String := "(" ++ " ".intercalate (showForest f) ++ ")"
            iface := fun i => (recs.getD i {}).iface, freshIface := fun i => (recs.getD i {}).fresh,
            access := fun i => acc.getD i 0 }
 
-def handle (s : Sexp) : String :=
-  match s.items with
-  | [mode, hdr, syms, acc, trees, r, edits] =>
+def handleLine (mode hdr syms acc trees r edits : Sexp) (low : Option Sexp) : String :=
     let m : Mode := match mode with
       | .atom "pinned" => ⟨false, false⟩
       | .atom "dtonly" => ⟨true, false⟩
       | _ => deployed
+    let byName : Bool := match mode with
+      | .atom "pinned" => false
+      | .atom "dtonly" => false
+      | .atom "positional" => false
+      | _ => true
+    let lowTab : Array Nat := match low with
+      | some l => l.natList.toArray
+      | none => #[]
+    let lower : Nat → Nat := fun i => if i < lowTab.size then lowTab.getD i i else i
     let W := mkWorld hdr syms acc trees
     let root := r.nat?.getD 0
-    let W1 := freeze (copy m W root)
-    let C := copyTree m W root
+    let W1 := freeze (if byName then copyL lower true W root else copy m W root)
+    let C := if byName then copyTreeL lower W root else copyTree m W root
+    let keyed := tablesKeyedB lower W (findIn root W.trees)
     match edits.items.mapM parseEdit with
     | none => "bad-edit"
     | some es =>
@@ -130,7 +143,12 @@ def handle (s : Sexp) : String :=
       let copyKept := decide (view W2 C = view W (findIn root W.trees)) && W2.trees.contains C
       let origKept := W.trees.all fun t => decide (view W2 t = view W t) && W2.trees.contains t
       "(" ++ showWorld W1 ++ " " ++ showWorld W2 ++ " " ++ (if copyKept then "1" else "0") ++ " " ++
-        (if origKept then "1" else "0") ++ ")"
+        (if origKept then "1" else "0") ++ " " ++ (if keyed then "1" else "0") ++ ")"
+
+def handle (s : Sexp) : String :=
+  match s.items with
+  | [mode, hdr, syms, acc, trees, r, edits] => handleLine mode hdr syms acc trees r edits none
+  | [mode, hdr, syms, acc, trees, r, edits, low] => handleLine mode hdr syms acc trees r edits (some low)
   | _ => "bad-line"
 
 def main : IO Unit := run handle
